@@ -228,7 +228,109 @@ def session (file : Bytes) (ops : List ModVerif.EditSpec.Op) : String :=
             | .error _ => "err:reparse"
           "ops=" ++ Drv.Edit.encRes res ++ " typed: " ++ Drv.Edit.M.dumpMod g ++ " fmt=" ++ xh out ++ " reparse: " ++ re
 
+/-! ### go.work -/
+
+/-- the typed go.work file and its syntax graph as a heap; the result pointer is the `*WorkFile` -/
+def loadWork (f : ModVerif.Modfile.WorkFile) : Heap × Int :=
+  let (s, stmts) := ({} : Ld).stmts f.syn.stmts
+  let h := s.h
+  let (fsP, fl) := heapAlloc h.files ({ Name := f.syn.name, Comments := comsG f.syn.comments, Stmt := stmts } : FileSyntax)
+  let h := { h with files := fl }
+  let pt := ptrOf s.ids
+  let alloc {α : Type} (l : List α) (xs : List α) : List Int × List α :=
+    xs.foldl (fun (acc : List Int × List α) x => let (p, l') := heapAlloc acc.2 x; (acc.1 ++ [p], l')) ([], l)
+  let (goP, h) := match f.go with
+    | none => ((0 : Int), h)
+    | some g => let (p, l) := heapAlloc h.gos ({ Version := g.version, Syntax := pt g.lineId } : Go); (p, { h with gos := l })
+  let (tcP, h) := match f.toolchain with
+    | none => ((0 : Int), h)
+    | some t => let (p, l) := heapAlloc h.toolchains ({ Name := t.name, Syntax := pt t.lineId } : Toolchain); (p, { h with toolchains := l })
+  let (gd, l) := alloc h.godebugs (f.godebug.map fun g => ({ Key := g.key, Value := g.value, Syntax := pt g.lineId } : Godebug))
+  let h := { h with godebugs := l }
+  let (us, l) := alloc h.uses (f.use.map fun u => ({ Path := u.path, ModulePath := u.modulePath, Syntax := pt u.lineId } : Use))
+  let h := { h with uses := l }
+  let (rp, l) := alloc h.replaces (f.replace.map fun r => ({ Old := mvG r.old, New := mvG r.new, Syntax := pt r.lineId } : Replace))
+  let h := { h with replaces := l }
+  let (fp, wl) := heapAlloc h.works ({ Go := goP, Toolchain := tcP, Godebug := gd, Use := us, Replace := rp, Syntax := fsP } : WorkFile)
+  ({ h with works := wl }, fp)
+
+def workM (h : Heap) (fp : Int) : Option ModVerif.Modfile.WorkFile := do
+  let f ← (heapGet h.works fp).toOption
+  let syn ← synM h f.Syntax
+  let go ← (if f.Go == 0 then some none else do
+    let g ← (heapGet h.gos f.Go).toOption
+    pure (some ({ version := g.Version, lineId := 0 } : ModVerif.Modfile.Go)))
+  let tc ← (if f.Toolchain == 0 then some none else do
+    let t ← (heapGet h.toolchains f.Toolchain).toOption
+    pure (some ({ name := t.Name, lineId := 0 } : ModVerif.Modfile.Toolchain)))
+  let gd ← getAll h.godebugs f.Godebug
+  let us ← getAll h.uses f.Use
+  let rp ← getAll h.replaces f.Replace
+  pure { go := go, toolchain := tc,
+         godebug := gd.map fun g => { key := g.Key, value := g.Value, lineId := 0 },
+         use := us.map fun u => { path := u.Path, modulePath := u.ModulePath, lineId := 0 },
+         replace := rp.map fun r => { old := { path := r.Old.Path, version := r.Old.Version }, new := { path := r.New.Path, version := r.New.Version }, lineId := 0 },
+         syn := syn }
+
+def applyWorkOp (fuel : Nat) (fp : Int) (h : Heap) (op : ModVerif.EditSpec.Op) : M (Option Bool × Heap) :=
+  let res (r : M ((Option String) × Heap)) : M (Option Bool × Heap) := do let (e, h) ← r; pure (some e.isNone, h)
+  let unit (r : M (Unit × Heap)) : M (Option Bool × Heap) := do let (_, h) ← r; pure (some true, h)
+  let newUses (l : List (Bytes × Bytes)) (h : Heap) : List Int × Heap :=
+    l.foldl (fun (acc : List Int × Heap) u =>
+      let (p, ul) := heapAlloc acc.2.uses ({ Path := u.1, ModulePath := u.2, Syntax := 0 } : Use)
+      (acc.1 ++ [p], { acc.2 with uses := ul })) ([], h)
+  match op with
+  | .addGo v => res (WorkFile_AddGoStmt ModVerif.Modfile.goVersionRE fuel fp v h)
+  | .dropGo => unit (WorkFile_DropGoStmt fp h)
+  | .addToolchain n => res (WorkFile_AddToolchainStmt ModVerif.Modfile.toolchainRE fuel fp n h)
+  | .dropToolchain => unit (WorkFile_DropToolchainStmt fp h)
+  | .addGodebug k v => res (WorkFile_AddGodebug fuel fp k v h)
+  | .dropGodebug k => res (WorkFile_DropGodebug fuel fp k h)
+  | .addUse d m => res (WorkFile_AddUse isPrintI quoteI fuel fp d m h)
+  | .addNewUse d m => unit (WorkFile_AddNewUse isPrintI quoteI fuel fp d m h)
+  | .dropUse d => res (WorkFile_DropUse fuel fp d h)
+  | .setUse l => let (ps, h) := newUses l h; unit (WorkFile_SetUse isPrintI quoteI fuel fp ps h)
+  | .addReplace a b c d => res (WorkFile_AddReplace isPrintI quoteI fuel fp a b c d h)
+  | .dropReplace a b => res (WorkFile_DropReplace fuel fp a b h)
+  | .sortBlocks => unit (WorkFile_SortBlocks fuel fp h)
+  | .cleanup => unit (WorkFile_Cleanup fuel fp h)
+  | _ => pure (none, h)
+
+def runWorkOps (fuel : Nat) (fp : Int) : Heap → List ModVerif.EditSpec.Op → List Bool → Run
+  | h, [], acc => .done h acc.reverse
+  | h, op :: rest, acc =>
+    match applyWorkOp fuel fp h op with
+    | .ok (some b, h') => runWorkOps fuel fp h' rest (b :: acc)
+    | .ok (none, _) => .badOp
+    | .error _ => .panic (opNameD op)
+
+def workSession (file : Bytes) (ops : List ModVerif.EditSpec.Op) : String :=
+  match ModVerif.Modfile.parseWork (B "go.work") file none with
+  | .error _ => "err:parse"
+  | .ok f =>
+    let (h0, fp) := loadWork f
+    let fuel := 8 * file.length + 64 * ops.length + 4096
+    match runWorkOps fuel fp h0 ops [] with
+    | .badOp => "bad-op"
+    | .panic n => "panic:" ++ n
+    | .done h res =>
+      match WorkFile_Cleanup fuel fp h with
+      | .error _ => "panic:final-cleanup"
+      | .ok (_, h) =>
+        match workM h fp with
+        | none => "bad-heap"
+        | some g =>
+          let out := ModVerif.Modfile.format g.syn
+          let re := match ModVerif.Modfile.parseWork (B "go.work") out none with
+            | .ok g2 => Drv.Edit.M.dumpWork g2
+            | .error _ => "err:reparse"
+          "ops=" ++ Drv.Edit.encRes res ++ " typed: " ++ Drv.Edit.M.dumpWork g ++ " fmt=" ++ xh out ++ " reparse: " ++ re
+
 def handle : Handler
+  | "worksession", file :: rest => do
+    let file ← hx file
+    let ops ← Drv.Edit.decOps rest
+    pure (workSession file ops)
   | "session", file :: rest => do
     let file ← hx file
     let ops ← Drv.Edit.decOps rest
